@@ -136,3 +136,14 @@ pub fn gen_bytes(kind: u8, len: usize, seed: u64) -> Vec<u8> {
         _ => simcore::Rng::new(seed ^ 0xA5A5_5A5A).bytes(len),
     }
 }
+
+/// Raises the soft RLIMIT_NOFILE to the hard limit.
+pub fn raise_fd_limit() {
+    unsafe {
+        let mut r = libc::rlimit { rlim_cur: 0, rlim_max: 0 };
+        if libc::getrlimit(libc::RLIMIT_NOFILE, &mut r) == 0 && r.rlim_cur < r.rlim_max {
+            r.rlim_cur = r.rlim_max;
+            let _ = libc::setrlimit(libc::RLIMIT_NOFILE, &r);
+        }
+    }
+}
